@@ -1614,9 +1614,9 @@ static inline void gp_str_repeat_str(GPString* dest, const size_t count, GPStrIn
     GP_PROCESS_ALL_ARGS(GP_REPEAT_SELECTION, GP_COMMA, GP_ALC_TYPES))(A, COUNT, GP_STR_IN(__VA_ARGS__))
 
 GP_NONNULL_ARGS()
-static inline void gp_replace11(GPString* hay, GPStrIn ndl, GPStrIn repl, const size_t start)
+static inline size_t gp_replace11(GPString* hay, GPStrIn ndl, GPStrIn repl, const size_t start)
 {
-    gp_str_replace(hay, ndl.data, ndl.length, repl.data, repl.length, start);
+    return gp_str_replace(hay, ndl.data, ndl.length, repl.data, repl.length, start);
 }
 GP_NONNULL_ARGS_AND_RETURN
 GPString gp_replace_new(const GPAllocator* alc, GPStrIn hay, GPStrIn ndl, GPStrIn repl, size_t start);
